@@ -63,7 +63,7 @@ def main(tier, replay):
     vlib.standard_coverage(chk, stats,
         "real free functions of stir/ML_norm.h (make_fan_data_remove_gaps, set_fan_data_add_gaps, get_fan_info, FanProjData accessors / is_in_data, "
         "apply_efficiencies / apply_block_norm / apply_geo_norm with apply=true and false, make_fan_sum_data (both overloads), make_block_data, make_geo_data, "
-        "iterate_efficiencies / iterate_block_norm / iterate_geo_norm, KL, multiply_crystal_factors) on generated cylindrical scanners: no virtual crystals, "
+        "iterate_efficiencies / iterate_block_norm / iterate_geo_norm, KL, multiply_crystal_factors, BinNormalisationPETFromComponents, ML_estimate_component_based_normalisation) on generated cylindrical scanners: no virtual crystals, "
         "transaxial virtual crystals (type Siemens_mMR), transaxial+axial (type E1080); 2-6 (thorough 2-8) transaxial blocks x 1-4 (1-6) physical crystals, "
         "1-3 axial blocks x 1-3 crystals, every max ring difference and odd/even numbers of tangential positions; projection data filled with distinct values "
         "(i*K mod 1000003), factors k/8 (exact in float), Poisson data; plus data the conversion must refuse (view mashing, span 3, TOF). "
@@ -74,7 +74,11 @@ def main(tier, replay):
         "The oracle evaluates the property itself on the implementation: round trip on every window bin, gap value in every gap bin, every fan entry = bin of "
         "its detector pair via get_bin_for_det_pos_pair, apply then un-apply restores (4*2*2^-24), applied factor = product of the two detectors' efficiencies / "
         "the factor of the two blocks / equal under a block translation, fan sums, fixed points of the three iterations on data generated from the model, "
-        "dead detector -> efficiency 0, KL over detector pairs non-increasing over 5 efficiency iterations (1e-5 relative).",
+        "dead detector -> efficiency 0, KL over detector pairs non-increasing over 5 efficiency iterations (1e-5 relative); bin efficiency of "
+        "BinNormalisationPETFromComponents = product of the two crystal efficiencies (0 in gaps); ML_estimate_component_based_normalisation end to end on tiny "
+        "scanners (exact and Poisson data, with and without gaps; files under build/out): every eff/geo/block file equals the documented sequence of iterate_* "
+        "steps recomputed from the building blocks, the written efficiencies do not increase the KL distance (while the model in use is symmetric), exact data are fitted. "
+        "Two seed-independent minimal reproductions of candidate defects are evaluated on every run (KNOWN-CANDIDATE keys geo-fixed-point:..., kl-descent:...).",
         extra=dict(input_distribution=info))
     chk.assumptions += ["the detector-pair <-> bin map is a parameter of the Lean model (property C01); the harness takes it from the real get_det_pos_pair_for_bin",
                         "float arithmetic is modelled exactly in Rat (binary64 for the in-place efficiency sweep on more than 9 detectors and for log) and compared with a derived forward bound",
